@@ -395,6 +395,12 @@ def main(argv):
                     broken.append({"kind": "theorem", "name": t, "detail": "theorem missing from build"})
                 elif set(ax) - ALLOWED_AXIOMS:
                     broken.append({"kind": "theorem", "name": t, "detail": "depends on axioms %s" % ax})
+        if tier == "thorough" and not lean_err:
+            # independent re-check of the compiled proofs of this property's modules (and everything they import)
+            with Lock("lake"):
+                rcL, outL, errL = sh(["lake", "env", "leanchecker"] + cfg.get("lean_modules", []), cwd=LEAN, timeout=3000)
+            if rcL != 0:
+                broken.append({"kind": "theorem", "name": "leanchecker rejects the compiled modules", "detail": (outL + errL)[-3000:]})
         forb = grep_forbidden()
         if forb:
             broken.append({"kind": "theorem", "name": "forbidden construct in Lean sources", "detail": "; ".join(forb[:10])})
